@@ -54,8 +54,13 @@ class OtherNativeError(Exception):
     """status 3: a C++ exception that is neither invalid_argument nor runtime_error (e.g. bad_alloc)"""
 
 
+STATUS_HOOKS = []   # fn(status, message), called first; may raise instead (akshim.virtual re-raises an exception parked by a Python callback)
+
+
 def raise_status(status):
     msg = lib.akb_last_error().decode("utf-8", "surrogateescape")
+    for hook in STATUS_HOOKS:
+        hook(status, msg)
     if status == 1:
         raise ValueError(msg)
     if status == 2:
